@@ -56,6 +56,10 @@ def generate(rng, tier):
         sc["ops"].insert(at, {"op": "tamper", "kind": kind, "r": rng.getrandbits(24)})
         sc["ops"].insert(at + 1, explore.gen_readonly(rng, {"tree": sc["world"]["tree"], "nested": []}))
         sc["ops"].insert(at + 2, scen.cmd("flatten", "@R", "@S/out2"))
+    if rng.random() < 0.06:
+        # a create that has nothing to record on a folder without history: nothing at all may change
+        sc["world"]["tree"]["hollow"] = {"t": "d"}
+        sc["ops"] = [scen.cmd("create", "@R", "-h", "md5", "-sf", "@R/hollow"), scen.cmd("info", "@R")] + sc["ops"]
     if rng.random() < 0.2:
         # flatten invoked with relative paths: the destination is relative to the working directory
         rootname = sc["world"]["rootname"]
